@@ -24,11 +24,20 @@ func genC03() *rapid.Generator[Case] {
 			maxOps = 8
 		}
 		n := rapid.IntRange(1, 14).Draw(t, "nsteps")
+		var clk *clockGen
+		if rapid.IntRange(0, 9).Draw(t, "clocked") < 3 {
+			// virtual clock: keys expire between the writes and the paging, some exactly at the paging instant
+			clk = &clockGen{Now: clockBase + int64(rapid.IntRange(0, 1000).Draw(t, "clock0"))}
+			c.Steps = append(c.Steps, Step{K: "clock", T: clk.Now})
+		}
 		for i := 0; i < n; i++ {
+			if clk != nil && rapid.IntRange(0, 5).Draw(t, "isclock") == 3 {
+				c.Steps = append(c.Steps, clk.step(t))
+			}
 			nops := rapid.IntRange(1, maxOps).Draw(t, "nops")
 			st := Step{K: "tx"}
 			for j := 0; j < nops; j++ {
-				st.Ops = append(st.Ops, genKVWrite([]string{bucket}, keys, false).Draw(t, "op"))
+				st.Ops = append(st.Ops, genKVWriteClocked([]string{bucket}, keys, false, clk).Draw(t, "op"))
 			}
 			c.Steps = append(c.Steps, st)
 			if rapid.IntRange(0, 9).Draw(t, "reopen") == 0 {
@@ -85,6 +94,18 @@ func runC03(c Case, st *Stats) error {
 			if err := h.Reopen(); err != nil {
 				return fmt.Errorf("step %d: reopen failed: %v", i, err)
 			}
+		case "clock":
+			if virtualClock != 0 {
+				if e, _ := clockEffect(m, virtualClock, s.T); e > 0 {
+					st.Class("pair-expired-while-the-case-ran", 1)
+				}
+			}
+			setClock(s.T)
+		}
+	}
+	if virtualClock != 0 {
+		if _, b := clockEffect(m, virtualClock, virtualClock); b > 0 {
+			st.Class("paged-at-or-one-second-before-an-expiry-instant", 1)
 		}
 	}
 	var keys []string
